@@ -15,6 +15,7 @@ from vf import fits as FT
 from vf.gen import rng_for
 
 ID = "C19"
+TECHNIQUE = 'runtime monitoring: conservation checker: every aggregated frame of the real BillingModel.predict compared with sums / root-sum-squares / means of its own daily rows per local calendar period'
 LEVEL = "exploration"
 CASE_TIMEOUT = 1500
 RULE = ("billing models (fitted on generated monthly/bi-monthly reads; parameter-built for every split layout) x reporting sets with any "
